@@ -13,7 +13,10 @@ MANIFEST = dict(
          "incl. non-holders, to holders, to self, to the zero address = destroy, to contracts that accept / fail / SELF-DESTRUCT when the "
          "transfer runs their code or in a later LEMO call; amounts negative, 0, 1, all, all+1, 2^256) and freeze / unfreeze, over assets of ALL "
          "THREE categories: token (id = code), non-fungible (indivisible, one id per issue transaction, moves as a whole), common (several ids per "
-         "code, divisible, replenishable or not), one of them frozen from the start, ids created by issue transactions of the scenario; every "
+         "code, divisible, replenishable or not), one of them frozen from the start, ids created by issue transactions of the scenario; "
+         "FIRST-TIME HOLDERS in rolled-back operations (transfer of a token / a whole non-fungible id / a common asset and the issuer's "
+         "replenish towards accounts and contracts that never held that id, as sub transactions of a box the miner gives up because a later sub "
+         "transaction is invalid, followed by transfers to the same receivers in the same block; failing contracts as first-time receivers); every "
          "transition is executed on real nodes (real signed transactions whose data JSON carries the exact decimal strings and asset code / id "
          "hashes, real BlockAssembler block after every step, second real node through DPoVP.InsertBlock) and TLC validates the REAL total "
          "supply / freeze flag of every code and every holder's equity under every id at every block against the recomputation from the "
@@ -23,15 +26,33 @@ MANIFEST = dict(
          "scenario blocks are not stabilised, so only the receivers of the setup chain's issue transactions can send an id (the processor "
          "demands the id's metadata in the sender's stable account; a transfer never hands it on). The design run also shows that a freeze "
          "flag looked up under the asset id (mutant Mut_FreezeLookupById) violates FrozenDoesNotMove and that a self-destruction wiping the "
-         "contract's equity (Mut_SuicideClearsEquity) violates SupplyEqualsEquity. Known defect (fixed in /repo e9d4b18, baf6473) kept as "
+         "contract's equity (Mut_SuicideClearsEquity) violates SupplyEqualsEquity, as does a given-up box that keeps the equity of first-time "
+         "holders (Mut_BadBoxKeepsFirstEquity). Known defect (fixed in /repo e9d4b18, baf6473) kept as "
          "deviations Dev_NegativeAssetTransfer* / Dev_AssetToFailingContractPanics.",
     technique="TLA+ model checking (Ledger.tla over LedgerOps.tla) + replay of the TLC state graphs and simulated behaviours on real nodes "
               "(adapter ledger) + TLC trace validation (TraceLedger.tla, Check = C12)")
 
 
+WIDE_KEY = "Dev_RevertedFirstEntrySplitsMinerValidator"
+
+
+def _wide(ctx):
+    """The wide roll-back configurations (transactions by a3's voter a1 after a given-up box, issue sub transactions, boxes in
+    the simulated behaviours) run into a defect of the unchanged code (see TraceLedger.tla GivenUpAssetBox): they are used
+    once known_findings.txt lists the deviation (known:) or records its fix (fixed: ... key=<WIDE_KEY>)."""
+    if WIDE_KEY in ctx.known:
+        return True
+    p = os.path.join(os.path.dirname(os.path.dirname(os.path.abspath(__file__))), "known_findings.txt")
+    return os.path.exists(p) and any(ln.startswith("fixed:") and WIDE_KEY in ln for ln in open(p))
+
+
 def run(ctx):
+    w = "w" if _wide(ctx) else ""
+    ctx.extra["rollback_configurations"] = "wide" if w else "default (see assumptions)"
     ledger_common.run(ctx, "C12", exhaustive=dict(quick="c12_quick", thorough="c12_thorough"),
                       negatives=[("c12_neg", ["OnlyOwnEquityDecreases", "SupplyChangesOnlyByIssuerOrHolder"]),
-                                 ("c12_negfrz", ["FrozenDoesNotMove"]), ("c12_negsd", ["SupplyEqualsEquity", "OnlyOwnEquityDecreases", "FrozenDoesNotMove"])], sim="c12_sim",
+                                 ("c12_negfrz", ["FrozenDoesNotMove"]), ("c12_negsd", ["SupplyEqualsEquity", "OnlyOwnEquityDecreases", "FrozenDoesNotMove"]),
+                                 ("c12_negroll", ["SupplyEqualsEquity", "NotIncludedIsFree"])], sim="c12_sim" + w,
                       sim_quick=150, sim_thorough=3000, depth=9,
-                      more=[dict(name="cat", quick="c12_cat", thorough="c12_cat_thorough")])
+                      more=[dict(name="cat", quick="c12_cat", thorough="c12_cat_thorough"),
+                            dict(name="roll", quick="c12_roll" + w, thorough="c12_roll%s_thorough" % w)])
